@@ -79,6 +79,17 @@ def run_case(case, seed=0):
         tls[e] = net.FakeSslContext(handshake_ok=case['hsOk'], peer_cert_der=der)
     peer_name = DNSNAME['P'] if case['byName'] else None
     world = World(cfgs['A'], cfgs['P'], tls=tls, peer_name=peer_name)
+    for e in 'AP':
+        mask = case.get('rsv', {}).get(e, 0)
+        if mask:
+            # this end's contact header carries reserved flag bits as well (a receiver must ignore them)
+            def xform(off, chunk, mask=mask):
+                if off <= 5 < off + len(chunk):
+                    chunk = bytearray(chunk)
+                    chunk[5 - off] |= mask
+                    chunk = bytes(chunk)
+                return chunk
+            world.sock[e].xform = xform
     world.start('P')
     world.start('A')
     world.run_fair(timers=False, max_steps=600)
@@ -115,6 +126,14 @@ def table(tier, seed):
             case = {e: {'canTls': can, 'req': req, 'reqHost': rh, 'reqNode': rn, 'ip': ip, 'dns': dns, 'node': node},
                     o: dict(PERMISSIVE, canTls=peer_can), 'hsOk': hs, 'byName': by_name}
             rows.append(case)
+    # reserved contact-header flag bits set by one end, over the rows in which TLS use is decided
+    for (e, mask) in itertools.product('AP', (0x02, 0x80, 0xFE)):
+        o = 'P' if e == 'A' else 'A'
+        for (can_e, can_o, req_o) in itertools.product((True, False), (True, False), REQS):
+            if tier == 'quick' and mask == 0x80 and req_o == 'no':
+                continue
+            rows.append({e: dict(PERMISSIVE, canTls=can_e), o: dict(PERMISSIVE, canTls=can_o, req=req_o),
+                         'hsOk': True, 'byName': True, 'rsv': {e: mask}})
     nrand = 120 if tier == 'quick' else 4000
     for _ in range(nrand):
         case = {'hsOk': rnd.random() < 0.8, 'byName': rnd.random() < 0.5}
